@@ -473,6 +473,61 @@ func checkC15(w *World, r *Report) {
 			"unchecked assertion at "+bad+": any message addressed to the writer's PID kills the node")
 	}
 	checkReaderDelivery(w, r, a, "C15.R7")
+	checkReaderStateless(w, r, a, "C15.R7")
+	checkPeerIndexGuards(w, r, a, "C15.R7") // (each index is checked against its own table: an honest batch is never rejected)
+	// the reader resolves targets by ID alone (the address in a PID may be another spelling of this node)
+	if get := w.Method("actor", "Registry", "get"); get != nil {
+		gg := w.FGI(get)
+		nilPid, _ := w.nilEdges(gg, "P1")
+		miss, _ := gg.CondEdges(func(v ssa.Value) (bool, bool) {
+			if e, ok := v.(*ssa.Extract); ok && e.Index == 1 {
+				if _, isL := e.Tuple.(*ssa.Lookup); isL {
+					return false, true // the !ok edge of the comma-ok lookup
+				}
+			}
+			return false, false
+		})
+		okG := true
+		where := ""
+		for _, rc := range gg.retCases() {
+			if len(rc.res) != 1 {
+				continue
+			}
+			if k, isK := rc.res[0].(*ssa.Const); isK && k.IsNil() {
+				if !rc.onlyVia(gg, append(append([]Edge{}, nilPid...), miss...)) {
+					okG, where = false, w.pos(gg.ins[rc.x].Pos())
+				}
+			}
+		}
+		r.Check(okG, "C15.R7", "(*actor.Registry).get:by-id-only", "Registry.get answers nil only for a nil PID or an unknown ID", w.fnPos(get),
+			"a nil answer at "+where+" depends on something else (e.g. the address): an inbound message whose target spells this node's address differently is dead-lettered although the actor exists")
+	}
+	// the writer may hold deliveries without sender: their *PID is used only through nil-safe methods
+	{
+		wg := w.FGI(a.wInvoke)
+		okN := true
+		whereN := ""
+		for i, in := range wg.ins {
+			c, isC := in.(*ssa.Call)
+			if !isC || wg.inl[i] {
+				continue
+			}
+			cal := c.Call.StaticCallee()
+			if cal == nil || cal.Signature.Recv() == nil || len(c.Call.Args) == 0 {
+				continue
+			}
+			rp := w.pathOf(c.Call.Args[0])
+			if !strings.HasSuffix(rp, ".sender") {
+				continue
+			}
+			if w.nonNilAt(wg, i, c.Call.Args[0]) || w.derefsParam(cal, 0, 0, map[string]bool{}) == nil {
+				continue
+			}
+			okN, whereN = false, fname(cal)+" at "+w.pos(in.Pos())
+		}
+		r.Check(okN, "C15.R7", fname(a.wInvoke)+":sender-may-be-nil", "the writer uses a delivery's sender only through nil-safe methods", w.fnPos(a.wInvoke),
+			"the sender of a delivery is dereferenced through "+whereN+": a message without sender panics on the writer's inbox goroutine and takes the batch (and the node) with it")
+	}
 	r.Rule("C15.R8", "writer and reader use one codec family, and a decoded message is created by the decoding call (not shared package state)", 2)
 	checkCodec(w, r, "C15.R8")
 }
@@ -762,98 +817,7 @@ func checkC16(w *World, r *Report) {
 		return
 	}
 	R := a.rReceive
-	// functions reachable from the handler inside the remote package (static callees)
-	reach := map[*ssa.Function]bool{}
-	var visit func(fn *ssa.Function)
-	visit = func(fn *ssa.Function) {
-		if fn == nil || reach[fn] || fn.Blocks == nil || !w.inMod[fn] || fnPkgPath(fn) != modPath+"/remote" {
-			return
-		}
-		reach[fn] = true
-		for _, in := range w.insOf(fn) {
-			{
-				if c := callOf(in); c != nil {
-					visit(c.StaticCallee())
-				}
-			}
-		}
-	}
-	visit(R)
-	// the configured deserializer implementations
-	for _, fn := range w.Funcs {
-		if w.isLib(fn) && fnPkgPath(fn) == modPath+"/remote" && fn.Name() == "Deserialize" && fn.Signature.Recv() != nil && fn.Synthetic == "" {
-			visit(fn)
-		}
-	}
-	n := 0
-	for fn := range reach {
-		g := w.FGI(fn)
-		for i, in := range g.ins {
-			ia, ok := in.(*ssa.IndexAddr)
-			if !ok {
-				continue
-			}
-			field, ok := w.peerIndex(ia.Index, a.msgT)
-			if !ok {
-				continue
-			}
-			n++
-			tab := w.pathOf(ia.X)
-			idx := w.pathOf(stripConv(ia.Index))
-			key := fmt.Sprintf("%s:%s[%s]", fname(fn), tab[strings.LastIndex(tab, ".")+1:], field)
-			okLo, okHi := false, false
-			for _, f := range g.FactsAt(i) {
-				// helper form
-				if c, isC := f.Cond.(*ssa.Call); isC && f.Val && len(c.Call.Args) == 2 && w.validIndexHelper(c.Call.StaticCallee()) {
-					if w.pathOf(stripConv(c.Call.Args[0])) == idx && w.pathOf(c.Call.Args[1]) == "len("+tab+")" {
-						okLo, okHi = true, true
-					}
-				}
-				if b, isB := f.Cond.(*ssa.BinOp); isB {
-					x, y := w.pathOf(stripConv(b.X)), w.pathOf(stripConv(b.Y))
-					op := b.Op
-					if !f.Val {
-						switch op {
-						case token.LSS:
-							op = token.GEQ
-						case token.GEQ:
-							op = token.LSS
-						case token.GTR:
-							op = token.LEQ
-						case token.LEQ:
-							op = token.GTR
-						default:
-							continue
-						}
-					}
-					if x == idx && y == "K:0" && op == token.GEQ {
-						okLo = true
-					}
-					if x == idx && y == "len("+tab+")" && op == token.LSS {
-						okHi = true
-					}
-					if y == idx && x == "len("+tab+")" && op == token.GTR {
-						okHi = true
-					}
-					if _, unsigned := b.X.Type().Underlying().(*types.Basic); unsigned && b.X.Type().Underlying().(*types.Basic).Info()&types.IsUnsigned != 0 && x == idx && op == token.LSS && strings.Contains(y, "len("+tab+")") {
-						okLo, okHi = true, true
-					}
-				}
-			}
-			detail := ""
-			if !okLo {
-				detail = "no dominating check that " + idx + " >= 0. "
-			}
-			if !okHi {
-				detail += "no dominating check that " + idx + " < len(" + tab + ")."
-			}
-			r.Check(okLo && okHi, "C16.R1", key, "peer-chosen index is range-checked against this very table", w.pos(ia.Pos()),
-				detail+" An envelope with an out-of-range or negative index panics on the drpc handler goroutine: the node dies")
-		}
-	}
-	if n == 0 {
-		r.Unknown("C16.R1", "index-sites", "the reader indexes the lookup tables with message fields", w.fnPos(R), "no index site found")
-	}
+	reach := checkPeerIndexGuards(w, r, a, "C16.R1")
 	// R2
 	for _, fn := range sortedFuncs(reach) {
 		g := w.FGI(fn)
@@ -981,9 +945,12 @@ func checkC16(w *World, r *Report) {
 		r.Check(ok, "C16.R2", fname(R)+":errors-end-the-message", "after a Recv or Deserialize error nothing of that envelope is delivered", w.fnPos(R), "a message whose payload failed to decode (or a failed Recv) can still reach SendLocal")
 	}
 	checkReaderDelivery(w, r, a, "C16.R3")
+	r.Rule("C16.R5", "a decoded message is created by the decoding call (C15.R8); the reader keeps nothing of one stream where another stream can see it", 2)
+	importRules(w, r, checkC15, "C15", "C16.R5", func(o *Obligation) bool { return o.Rule == "C15.R8" })
+	checkReaderStateless(w, r, a, "C16.R5")
 	// R4 custom processers
 	procI, _ := w.Named("actor", "Processer").Underlying().(*types.Interface)
-	n = 0
+	n := 0
 	for _, fn := range w.Funcs {
 		if !w.isLib(fn) || fn.Signature.Recv() == nil || fn.Synthetic != "" || (fn.Name() != "Invoke" && fn.Name() != "Send") {
 			continue
@@ -1367,6 +1334,11 @@ func checkC17(w *World, r *Report) {
 	importRules(w, r, checkC15, "C15", "C17.R7", func(o *Obligation) bool {
 		return o.Rule == "C15.R1" || o.Rule == "C15.R2" || o.Rule == "C15.R4" || o.Rule == "C15.R8"
 	})
+	// R8: the inboxes a remote message waits in (writer, target) keep it and its order: ring transfers (C14.R2-R5)
+	r.Rule("C17.R8", "queued deliveries survive a growing inbox in order (C14.R2-R5)", 8)
+	importRules(w, r, checkC14, "C14", "C17.R8", func(o *Obligation) bool {
+		return o.Rule == "C14.R2" || o.Rule == "C14.R3" || o.Rule == "C14.R4" || o.Rule == "C14.R5"
+	})
 	// R5
 	{
 		rstart := w.Method("remote", "Remote", "Start")
@@ -1747,4 +1719,141 @@ func batchEmptyEdges(w *World, g *FG, mv ssa.Value, lit *ssa.Alloc) (empty, nonE
 		}
 		return false, false
 	})
+}
+
+
+// checkReaderStateless: the streamReader is one object shared by all inbound streams; what Receive learns from one
+// stream stays in locals. No field of the reader is written outside its constructor.
+func checkReaderStateless(w *World, r *Report, a *remoteAnchors, rule string) {
+	rt := w.Named("remote", "streamReader")
+	if rt == nil {
+		r.Unknown(rule, "streamReader:stateless", "the stream reader type", "-", "not found")
+		return
+	}
+	var writers []string
+	for _, fn := range w.Funcs {
+		if !w.isLib(fn) || fnPkgPath(fn) != modPath+"/remote" {
+			continue
+		}
+		for _, in := range w.insOf(fn) {
+			st, ok := in.(*ssa.Store)
+			if !ok {
+				continue
+			}
+			fa, ok := st.Addr.(*ssa.FieldAddr)
+			if !ok {
+				continue
+			}
+			if n, _ := structOf(fa.X.Type()); !sameNamed(n, rt) {
+				continue
+			}
+			if _, fresh := fa.X.(*ssa.Alloc); fresh {
+				continue
+			}
+			name, _ := fieldName(fa)
+			writers = append(writers, fname(fn)+" writes streamReader."+name+" at "+w.pos(st.Pos()))
+		}
+	}
+	r.Check(len(writers) == 0, rule, "streamReader:stateless", "no field of the shared stream reader is written after construction", w.fnPos(a.rReceive),
+		strings.Join(writers, "; ")+": the reader serves every inbound stream; per-envelope state kept in it is overwritten by a concurrent stream, messages are decoded with another envelope's tables")
+}
+
+// checkPeerIndexGuards: every index taken from a received Message is range-checked against the very table it
+// indexes (C16.R1, also a condition of C15: a check against another table rejects honest batches). Returns the
+// functions reachable from the stream handler.
+func checkPeerIndexGuards(w *World, r *Report, a *remoteAnchors, rule string) map[*ssa.Function]bool {
+	R := a.rReceive
+	// functions reachable from the handler inside the remote package (static callees)
+	reach := map[*ssa.Function]bool{}
+	var visit func(fn *ssa.Function)
+	visit = func(fn *ssa.Function) {
+		if fn == nil || reach[fn] || fn.Blocks == nil || !w.inMod[fn] || fnPkgPath(fn) != modPath+"/remote" {
+			return
+		}
+		reach[fn] = true
+		for _, in := range w.insOf(fn) {
+			{
+				if c := callOf(in); c != nil {
+					visit(c.StaticCallee())
+				}
+			}
+		}
+	}
+	visit(R)
+	// the configured deserializer implementations
+	for _, fn := range w.Funcs {
+		if w.isLib(fn) && fnPkgPath(fn) == modPath+"/remote" && fn.Name() == "Deserialize" && fn.Signature.Recv() != nil && fn.Synthetic == "" {
+			visit(fn)
+		}
+	}
+	n := 0
+	for fn := range reach {
+		g := w.FGI(fn)
+		for i, in := range g.ins {
+			ia, ok := in.(*ssa.IndexAddr)
+			if !ok {
+				continue
+			}
+			field, ok := w.peerIndex(ia.Index, a.msgT)
+			if !ok {
+				continue
+			}
+			n++
+			tab := w.pathOf(ia.X)
+			idx := w.pathOf(stripConv(ia.Index))
+			key := fmt.Sprintf("%s:%s[%s]", fname(fn), tab[strings.LastIndex(tab, ".")+1:], field)
+			okLo, okHi := false, false
+			for _, f := range g.FactsAt(i) {
+				// helper form
+				if c, isC := f.Cond.(*ssa.Call); isC && f.Val && len(c.Call.Args) == 2 && w.validIndexHelper(c.Call.StaticCallee()) {
+					if w.pathOf(stripConv(c.Call.Args[0])) == idx && w.pathOf(c.Call.Args[1]) == "len("+tab+")" {
+						okLo, okHi = true, true
+					}
+				}
+				if b, isB := f.Cond.(*ssa.BinOp); isB {
+					x, y := w.pathOf(stripConv(b.X)), w.pathOf(stripConv(b.Y))
+					op := b.Op
+					if !f.Val {
+						switch op {
+						case token.LSS:
+							op = token.GEQ
+						case token.GEQ:
+							op = token.LSS
+						case token.GTR:
+							op = token.LEQ
+						case token.LEQ:
+							op = token.GTR
+						default:
+							continue
+						}
+					}
+					if x == idx && y == "K:0" && op == token.GEQ {
+						okLo = true
+					}
+					if x == idx && y == "len("+tab+")" && op == token.LSS {
+						okHi = true
+					}
+					if y == idx && x == "len("+tab+")" && op == token.GTR {
+						okHi = true
+					}
+					if _, unsigned := b.X.Type().Underlying().(*types.Basic); unsigned && b.X.Type().Underlying().(*types.Basic).Info()&types.IsUnsigned != 0 && x == idx && op == token.LSS && strings.Contains(y, "len("+tab+")") {
+						okLo, okHi = true, true
+					}
+				}
+			}
+			detail := ""
+			if !okLo {
+				detail = "no dominating check that " + idx + " >= 0. "
+			}
+			if !okHi {
+				detail += "no dominating check that " + idx + " < len(" + tab + ")."
+			}
+			r.Check(okLo && okHi, rule, key, "peer-chosen index is range-checked against this very table", w.pos(ia.Pos()),
+				detail+" An envelope with an out-of-range or negative index panics on the drpc handler goroutine: the node dies")
+		}
+	}
+	if n == 0 {
+		r.Unknown(rule, "index-sites", "the reader indexes the lookup tables with message fields", w.fnPos(R), "no index site found")
+	}
+	return reach
 }
